@@ -15,6 +15,7 @@ import (
 )
 
 type evaluator struct {
+	lazy  map[string]ast.Expr
 	x     *Exec
 	fr    *Frame
 	st    *State // private working state (may be extended by pure calls)
@@ -108,6 +109,9 @@ func (ev *evaluator) ev(e ast.Expr) *Val {
 		case *types.Slice:
 			return &Val{T: ev.readElemQ(bt.Elem(), base.T, idx.T), Typ: bt.Elem()}
 		case *types.Basic:
+			if hasFreeBound(idx.T) {
+				return &Val{T: ev.x.atFun(ev.st, strArr(base.T), strOff(base.T), idx.T), Typ: types.Typ[types.Byte]}
+			}
 			return &Val{T: strAt(base.T, idx.T), Typ: types.Typ[types.Byte]}
 		case *types.Map:
 			_, _, doms, vals := ev.x.mapSorts(bt)
@@ -184,7 +188,11 @@ func (ev *evaluator) ev(e ast.Expr) *Val {
 
 // readElemQ reads a slice element without typing assumptions (safe under quantifiers).
 func (ev *evaluator) readElemQ(elemT types.Type, sl, idx *Term) *Term {
-	return Select(ev.x.elemArr(ev.st, elemT, slRef(sl)), Add(slOff(sl), idx))
+	arr := ev.x.elemArr(ev.st, elemT, slRef(sl))
+	if hasFreeBound(idx) {
+		return ev.x.atFun(ev.st, arr, slOff(sl), idx)
+	}
+	return Select(arr, Add(slOff(sl), idx))
 }
 
 func (ev *evaluator) coerce(a, b *Val) (*Val, *Val) {
@@ -215,6 +223,12 @@ func (ev *evaluator) pkgOf() *types.Package {
 
 func (ev *evaluator) ident(name string) *Val {
 	if v, ok := ev.lets[name]; ok {
+		return v
+	}
+	if e, ok := ev.lazy[name]; ok {
+		delete(ev.lazy, name)
+		v := ev.ev(e)
+		ev.lets[name] = v
 		return v
 	}
 	switch name {
@@ -290,24 +304,48 @@ func (ev *evaluator) deref(v *Val, t types.Type) *Val {
 	return v
 }
 
+func domDepth(b *ssa.BasicBlock) int {
+	d := 0
+	for b.Idom() != nil {
+		b = b.Idom()
+		d++
+	}
+	return d
+}
+
+// local resolves a source-level variable name at the evaluation point (a loop header, or function
+// entry/exit when blk is nil): the innermost definition that dominates the point wins; a phi of the
+// header itself is the variable's value at the cut point.
 func (ev *evaluator) local(name string) *Val {
 	fr := ev.fr
-	// phi overrides / header phis
 	var best ssa.Value
-	bestIdx := -1
-	consider := func(v ssa.Value, blk *ssa.BasicBlock) {
-		if _, ok := fr.env[v]; !ok {
-			if _, ok2 := ev.over[v]; !ok2 {
-				return
-			}
+	bestDepth := -1
+	visible := func(b *ssa.BasicBlock) bool {
+		if ev.blk == nil {
+			return b.Index == 0
 		}
-		idx := blk.Index
-		if ev.blk != nil && !(blk == ev.blk || blk.Dominates(ev.blk)) {
+		return b == ev.blk || b.Dominates(ev.blk)
+	}
+	consider := func(v ssa.Value, defBlk *ssa.BasicBlock, atHeader bool) {
+		if !visible(defBlk) {
 			return
 		}
-		// prefer the innermost (latest) dominating definition
-		if idx > bestIdx {
-			best, bestIdx = v, idx
+		if defBlk == ev.blk && !atHeader {
+			return // defined in the header after the cut point
+		}
+		if _, isConst := v.(*ssa.Const); !isConst {
+			if _, ok := fr.env[v]; !ok {
+				if _, ok2 := ev.over[v]; !ok2 {
+					return
+				}
+			}
+		}
+		d := domDepth(defBlk)*2 + 1
+		if atHeader {
+			d++
+		}
+		if d > bestDepth {
+			best, bestDepth = v, d
 		}
 	}
 	for _, b := range fr.fn.Blocks {
@@ -315,7 +353,7 @@ func (ev *evaluator) local(name string) *Val {
 			switch in := ins.(type) {
 			case *ssa.Phi:
 				if in.Comment == name {
-					consider(in, b)
+					consider(in, b, b == ev.blk)
 				}
 			case *ssa.Alloc:
 				if in.Comment == name {
@@ -326,19 +364,7 @@ func (ev *evaluator) local(name string) *Val {
 			case *ssa.DebugRef:
 				if id, ok := in.Expr.(*ast.Ident); ok && id.Name == name && !in.IsAddr {
 					if val, ok := in.X.(ssa.Value); ok {
-						if _, isConst := val.(*ssa.Const); isConst {
-							if ev.blk == nil || b == ev.blk || b.Dominates(ev.blk) {
-								if b.Index > bestIdx {
-									best, bestIdx = val, b.Index
-								}
-							}
-							continue
-						}
-						if instr, ok := val.(ssa.Instruction); ok && instr.Block() != nil {
-							consider(val, instr.Block())
-						} else {
-							consider(val, b)
-						}
+						consider(val, b, false)
 					}
 				}
 			}
@@ -578,11 +604,13 @@ func (ev *evaluator) callExpr(n *ast.CallExpr) *Val {
 		case "ediv":
 			a := ev.ev(n.Args[0])
 			b := ev.ev(n.Args[1])
-			return &Val{T: EDiv(a.T, b.T), Typ: intT}
+			ev.x.divFacts(ev.st, a.T, b.T)
+			return &Val{T: ev.x.divBy(EDiv, a.T, b.T), Typ: intT}
 		case "emod":
 			a := ev.ev(n.Args[0])
 			b := ev.ev(n.Args[1])
-			return &Val{T: EMod(a.T, b.T), Typ: intT}
+			ev.x.divFacts(ev.st, a.T, b.T)
+			return &Val{T: ev.x.divBy(EMod, a.T, b.T), Typ: intT}
 		case "int", "rune", "byte", "int64", "int32", "uint8":
 			return ev.ev(n.Args[0])
 		}
@@ -593,6 +621,15 @@ func (ev *evaluator) callExpr(n *ast.CallExpr) *Val {
 			}
 			ev.own()
 			return h(ev, args)
+		}
+		// call of a function-typed parameter / variable
+		if fv := ev.tryFuncValue(id.Name); fv != nil {
+			var args []*Val
+			for _, a := range n.Args {
+				args = append(args, ev.ev(a))
+			}
+			ev.own()
+			return ev.x.callClosure(ev.fr, ev.st, fv, args, token.NoPos)
 		}
 		// spec function
 		if sf := ev.lookupSpec(id.Name); sf != nil {
@@ -831,4 +868,25 @@ func parseExprCached(s string) (ast.Expr, error) {
 		exprCache[s] = e
 	}
 	return e, err
+}
+
+// tryFuncValue resolves an identifier to a function-typed parameter, free variable or let binding.
+func (ev *evaluator) tryFuncValue(name string) *Val {
+	if v, ok := ev.lets[name]; ok {
+		if v.Typ != nil {
+			if _, isSig := v.Typ.Underlying().(*types.Signature); isSig {
+				return v
+			}
+		}
+		return nil
+	}
+	fn := ev.fr.fn
+	for i, p := range fn.Params {
+		if p.Name() == name && i < len(ev.fr.params) {
+			if _, isSig := p.Type().Underlying().(*types.Signature); isSig {
+				return ev.fr.params[i]
+			}
+		}
+	}
+	return nil
 }
